@@ -319,6 +319,7 @@ namespace mon
             viol( "C02", "C02|fail-required-cursor-moved|" + t, w );
          }
          if( ( f.flags & F_TRY ) && ( f.flags & F_REQUIRED ) && moved ) viol( "C05", "C05|try_catch-local-failure-cursor-not-restored|" + t, std::string( f.name ) + " returned false under rewind_mode::required (converted exception or failed rule) with the cursor moved" );
+         if( f.vetoed && f.closed == 1 ) viol( "C04", "C04|veto-reported-as-success|" + t, "action of " + std::string( f.name ) + " returned false (local failure) but the control was told success()" );
          if( f.vetoed && moved ) viol( "C04", "C04|veto-cursor-not-restored|" + t, "action of " + std::string( f.name ) + " returned false but the cursor was not restored to the start of the match" );
       }
       else if( result == 1 ) {
